@@ -220,7 +220,25 @@ fn word(rng: &mut Rng, alphabet: &[u8], lo: usize, hi: usize) -> String {
 pub fn random(rng: &mut Rng) -> Parts {
     const AL: &[u8] = b"abcdefghijklmnopqrstuvwxyz0123456789";
     const UNRES: &[u8] = b"abcXYZ019-._~";
-    let host = match rng.below(6) {
+    let host = match if rng.chance(1, 24) { 6 } else { rng.below(6) } {
+        6 => {
+            // registered names around and beyond the DNS limit of 255 octets (http::Uri only limits the whole URI): labels of <= 63
+            let want = *rng.pick(&[200usize, 253, 254, 255, 256, 257, 300, 511, 1000, 4000]);
+            let mut h = String::new();
+            while h.len() < want {
+                let room = want - h.len();
+                let l = room.min(rng.range(1, 63) as usize);
+                h.push_str(&word(rng, AL, l, l));
+                if h.len() < want {
+                    h.push('.');
+                }
+            }
+            if h.ends_with('.') {
+                h.pop();
+                h.push('x');
+            }
+            h
+        }
         0 => format!("{}.{}.{}.{}", rng.below(256), rng.below(256), rng.below(256), rng.below(256)),
         1 => {
             let groups: Vec<String> = (0..rng.range(2, 7)).map(|_| format!("{:x}", rng.below(0x10000))).collect();
